@@ -281,8 +281,6 @@ def emit(repo: Path) -> dict:
         "  kind : Kind",
         "  shape : String",
         "  keys : List String",
-        "  maxsize : Nat",
-        "  unbounded : Bool",
         "  written : Written",
         "  deriving DecidableEq, Repr",
         "",
@@ -293,15 +291,18 @@ def emit(repo: Path) -> dict:
     for e in ents:
         rows.append(
             f"  {{ file := {lean_str(e['file'])}, name := {lean_str(e['name'])}, kind := .{e['kind']}, shape := {lean_str(e['shape'])}, "
-            f"keys := [{', '.join(lean_str(k) for k in e['keys'])}], maxsize := {e['maxsize']}, "
-            f"unbounded := {'true' if e['unbounded'] else 'false'}, written := {wr[e['written']]} }}"
+            f"keys := [{', '.join(lean_str(k) for k in e['keys'])}], written := {wr[e['written']]} }}"
         )
     lines.append(",\n".join(rows))
     lines.append("]")
     lines.append("")
-    lines.append("/-- the memoised functions only: (file, name, key parameters, maxsize) -/")
-    lines.append("def memos : List (String × String × List String × Nat) :=")
-    lines.append("  (entries.filter (fun e => e.kind == .memo)).map (fun e => (e.file, e.name, e.keys, e.maxsize))")
+    lines.append("/-- the memoised functions only: (file, name, key parameters) -/")
+    lines.append("def memos : List (String × String × List String) :=")
+    lines.append("  (entries.filter (fun e => e.kind == .memo)).map (fun e => (e.file, e.name, e.keys))")
+    lines.append("")
+    lines.append("/-- informational (not part of any obligation: transparency holds for every bound): `maxsize` per memo, 0 = unbounded -/")
+    sizes = ", ".join(f"({lean_str(e['name'])}, {e['maxsize']})" for e in ents if e["kind"] == "memo")
+    lines.append(f"def memoSizes : List (String × Nat) := [{sizes}]")
     lines.append("")
     lines.append("end LiquidVerif.Gen.SharedState")
     return {"SharedState.lean": "\n".join(lines) + "\n"}
